@@ -454,6 +454,13 @@ def g_c19_logicle(tier, rnd):
             for nb in (None, 1, 32):
                 yield c19_case(s, 1, nb, 'logicle')
                 yield c19_case(s, [1, 0], nb, ['logicle', 'linear'])
+    # several logicle channels of the same range whose most negative events differ (each channel has its own W)
+    for (n0, n1) in ((-2.0, -300.0), (-300.0, -2.0), (-0.5, -40.0), (5.0, -90.0), (-90.0, 5.0)):
+        for r in (256, 1024):
+            ev = [[n0, n1], [100.0, 3.0], [r - 1.0, 20.0], [7.0, r - 2.0]]
+            s = c19_sample([r, r], amp=['0,0', '0,0'], datatype='D', events=ev)
+            for ch in ([0, 1], [1, 0], None, ['FSC-H', 'SSC-H']):
+                yield c19_case(s, ch, rnd.choice([None, 8, 33]), 'logicle')
 
 
 # ====================================================================================================== registry
